@@ -153,6 +153,10 @@ static void dumpType(const TypeDescriptor *td) {
     // a renamed aggregate (TYPE b = a) is an aggregate descriptor of its own that only refers to a: its facts are a's
     if (!f.empty() && td->Type() != REFERENCE_TYPE) std::cout << " aggr=" << f;
     std::cout << " ref=" << render(td->ReferentType());
+    // the getters that follow the referent links
+    std::cout << " nonref=" << ftName(td->NonRefType()) << " nonreftd=" << render(td->NonRefTypeDescriptor())
+              << " base=" << ftName(td->BaseType()) << " isaggr=" << (td->IsAggrType() ? 1 : 0);
+    if (td->IsAggrType()) std::cout << " elem=" << ftName(td->AggrElemType()) << " elemtd=" << render(td->AggrElemTypeDescriptor());
     if (td->Type() == sdaiENUMERATION || (td->Type() == REFERENCE_TYPE && td->NonRefType() == sdaiENUMERATION)) {
         const EnumTypeDescriptor *et = dynamic_cast<const EnumTypeDescriptor *>(td);
         std::cout << " items=";
